@@ -262,3 +262,544 @@ pub fn run_c09(case: &C09Case, info: &mut CaseInfo) -> Result<(), Fail> {
         }
     }
 }
+
+// ---------------------------------------------------------------------------------------------
+// C11 — primitives
+// ---------------------------------------------------------------------------------------------
+
+#[derive(Serialize, Deserialize, Clone, Copy, Debug, PartialEq, Eq, Hash)]
+pub enum Expect {
+    Default,
+    With(u16),
+    Ignore,
+}
+
+#[derive(Serialize, Deserialize, Clone, Copy, Debug, PartialEq, Eq, Hash)]
+pub enum Addressing {
+    /// FPxx to station address 0x2000 (held by `responders` devices)
+    Fixed,
+    /// APxx to ring position `pos`
+    Position(u8),
+    /// Bxx
+    Broadcast,
+}
+
+#[derive(Serialize, Deserialize, Clone, Copy, Debug, PartialEq, Eq, Hash)]
+pub enum PrimOp {
+    Receive,
+    ReceiveSlice,
+    SendReceive,
+    SendReceiveSlice,
+}
+
+#[derive(Serialize, Deserialize, Clone, Debug, PartialEq, Eq, Hash)]
+pub struct C11Prim {
+    pub devices: u8,
+    /// How many devices hold the addressed station address
+    pub responders: u8,
+    pub addressing: Addressing,
+    pub op: PrimOp,
+    pub expect: Expect,
+    /// Wire fault: added to the working counter on the way back
+    pub wkc_delta: i8,
+    pub len: u8,
+    pub seed: u64,
+}
+
+pub fn c11_prim() -> impl Strategy<Value = C11Prim> {
+    (
+        1u8..=4,
+        0u8..=3,
+        prop_oneof![3 => Just(Addressing::Fixed), 1 => (0u8..5).prop_map(Addressing::Position), 1 => Just(Addressing::Broadcast)],
+        prop_oneof![Just(PrimOp::Receive), Just(PrimOp::ReceiveSlice), Just(PrimOp::SendReceive), Just(PrimOp::SendReceiveSlice)],
+        prop_oneof![3 => Just(Expect::Default), 3 => (0u16..4).prop_map(Expect::With), 1 => Just(Expect::Ignore)],
+        prop_oneof![4 => Just(0i8), 1 => Just(1i8), 1 => Just(-1i8)],
+        1u8..=16,
+        any::<u64>(),
+    )
+        .prop_map(|(devices, responders, addressing, op, expect, wkc_delta, len, seed)| C11Prim {
+            devices,
+            responders: responders.min(devices),
+            addressing,
+            op,
+            expect,
+            wkc_delta,
+            len,
+            seed,
+        })
+}
+
+pub const C11_RULE: &str = "primitive cases = (1..4 devices, 0..3 of them answering the addressed station address / position / broadcast, receive | receive_slice | send_receive | send_receive_slice, expected count default | with_wkc(0..3) | ignore_wkc, wire-altered counter); composite cases = EEPROM read, SDO read/write, state request against a device absent throughout or dropping out at datagram k; non-trivial = a configured expectation differs from the count received, or a dropout strictly inside a multi-datagram operation; distinct by hash of the case";
+
+fn plain_device(station: u16, seed: u64) -> simnet::DeviceSpec {
+    let k = DevKnobs {
+        name: b"DEV".to_vec(),
+        long_name: b"Device".to_vec(),
+        vendor: 1,
+        product: 2,
+        revision: 3,
+        serial: 4,
+        alias: 0,
+        stale_addr: station,
+        mailbox: false,
+        coe: false,
+        mbx_size: 32,
+        out_sms: vec![],
+        in_sms: vec![],
+        fmmu_ex: false,
+        dc: DcKind::None,
+        chunk8: false,
+        sii_busy_polls: 0,
+        strict: false,
+        unknown_cats: 0,
+        input_seed: seed,
+        clock_offset: 0,
+        link_delay: 100,
+        down_ports: 1,
+        complete_access: false,
+    };
+
+    k.build(None, [true, true, false, false], simgen::accept_all(), simnet::UploadPolicy::Auto, vec![])
+}
+
+const C11_REG: u16 = 0x1200;
+
+pub fn run_c11_prim(case: &C11Prim, info: &mut CaseInfo) -> Result<(), Fail> {
+    use ethercrab::Command;
+
+    let n = usize::from(case.devices);
+    let spec = NetSpec {
+        devices: (0..n)
+            .map(|i| {
+                let mut d = plain_device(if i < usize::from(case.responders) { 0x2000 } else { 0x3000 + i as u16 }, case.seed + i as u64);
+
+                d.parent = if i == 0 { None } else { Some(i - 1) };
+
+                d
+            })
+            .collect(),
+    };
+
+    let mut network = Network::new(&spec);
+    let len = usize::from(case.len);
+
+    // Distinct memory content per device
+    for (i, d) in network.devices.iter_mut().enumerate() {
+        let bytes = crate::util::bytes_from_seed(case.seed ^ (i as u64 * 977), len);
+
+        d.mem[usize::from(C11_REG)..usize::from(C11_REG) + len].copy_from_slice(&bytes);
+    }
+
+    let before: Vec<Vec<u8>> = network.devices.iter().map(|d| d.mem[usize::from(C11_REG)..usize::from(C11_REG) + len].to_vec()).collect();
+
+    if case.wkc_delta != 0 {
+        network.wkc_fault = Some((1, i32::from(case.wkc_delta)));
+    }
+
+    // Ground truth: who services the datagram
+    let servicing: Vec<usize> = match case.addressing {
+        Addressing::Fixed => (0..usize::from(case.responders)).collect(),
+        Addressing::Position(p) => (0..n).filter(|i| *i == usize::from(p)).collect(),
+        Addressing::Broadcast => (0..n).collect(),
+    };
+
+    let is_write = matches!(case.op, PrimOp::SendReceive | PrimOp::SendReceiveSlice);
+    let true_wkc = servicing.len() as i32;
+    let received = (true_wkc + i32::from(case.wkc_delta)) as u16;
+    let payload = crate::util::bytes_from_seed(case.seed ^ 0xabcdef, len);
+
+    let net: NetHandle = Rc::new(RefCell::new(network));
+    let cfg = SimConfig::default();
+    let c = case.clone();
+    let payload2 = payload.clone();
+
+    let res: Result<Vec<u8>, Error> = simexec::run(&net, &cfg, |md| {
+        Box::pin(async move {
+            let apply_r = |r: ethercrab::WrappedRead| match c.expect {
+                Expect::Default => r,
+                Expect::With(k) => r.with_wkc(k),
+                Expect::Ignore => r.ignore_wkc(),
+            };
+            let apply_w = |w: ethercrab::WrappedWrite| match c.expect {
+                Expect::Default => w,
+                Expect::With(k) => w.with_wkc(k),
+                Expect::Ignore => w.ignore_wkc(),
+            };
+
+            let rd = match c.addressing {
+                Addressing::Fixed => Command::fprd(0x2000, C11_REG),
+                Addressing::Position(p) => Command::aprd(u16::from(p), C11_REG),
+                Addressing::Broadcast => Command::brd(C11_REG),
+            };
+            let wr = match c.addressing {
+                Addressing::Fixed => Command::fpwr(0x2000, C11_REG),
+                Addressing::Position(p) => Command::apwr(u16::from(p), C11_REG),
+                Addressing::Broadcast => Command::bwr(C11_REG),
+            };
+
+            match c.op {
+                PrimOp::Receive => {
+                    // fixed size types by length class
+                    match c.len {
+                        1 => apply_r(rd).receive::<u8>(md).await.map(|v| vec![v]),
+                        2 | 3 => apply_r(rd).receive::<u16>(md).await.map(|v| v.to_le_bytes().to_vec()),
+                        4..=7 => apply_r(rd).receive::<u32>(md).await.map(|v| v.to_le_bytes().to_vec()),
+                        _ => apply_r(rd).receive::<u64>(md).await.map(|v| v.to_le_bytes().to_vec()),
+                    }
+                }
+                PrimOp::ReceiveSlice => apply_r(rd).receive_slice(md, u16::from(c.len)).await.map(|p| p.to_vec()),
+                PrimOp::SendReceive => match c.len {
+                    1 => apply_w(wr).send_receive::<u8>(md, payload2[0]).await.map(|v| vec![v]),
+                    _ => apply_w(wr).send_receive::<[u8; 2]>(md, [payload2[0], *payload2.get(1).unwrap_or(&0)]).await.map(|v| v.to_vec()),
+                },
+                PrimOp::SendReceiveSlice => apply_w(wr).send_receive_slice(md, &payload2[..]).await.map(|p| p.to_vec()),
+            }
+        })
+    })
+    .map_err(|e| sim_fail("C11", e))?;
+
+    let expected_count = match case.expect {
+        Expect::Default => Some(1u16),
+        Expect::With(k) => Some(k),
+        Expect::Ignore => None,
+    };
+
+    let mismatch = expected_count.map(|e| e != received).unwrap_or(false);
+
+    info.nontrivial = mismatch;
+
+    if mismatch {
+        info.label("count-mismatch");
+    }
+
+    if servicing.is_empty() {
+        info.label("nobody-answers");
+    }
+
+    info.label(format!("{:?}", case.op));
+
+    let entry = format!("{:?}", case.op);
+
+    match (&res, mismatch) {
+        (Err(Error::WorkingCounter { expected, received: r }), true) => {
+            ensure!(
+                Some(*expected) == expected_count && *r == received,
+                format!("C11|wrong-counts|{entry}"),
+                "error carries expected {expected} received {r}; configured {expected_count:?}, the wire returned {received}"
+            );
+        }
+        (Ok(data), true) => fail!(
+            format!("C11|unchecked|{entry}"),
+            "{:?} with expectation {:?}: {} device(s) serviced the datagram (counter {received}) but the call returned Ok({})",
+            case.op,
+            case.expect,
+            servicing.len(),
+            crate::util::hex(data)
+        ),
+        (Err(e), true) => fail!(format!("C11|wrong-error|{entry}"), "expected a working counter error, got {e:?}"),
+        (Err(e), false) => fail!(format!("C11|spurious-error|{entry}"), "counter {received} matches the expectation {expected_count:?} but the call failed: {e:?}"),
+        (Ok(data), false) => {
+            // Returned bytes: what the network returned
+            let net = net.borrow();
+
+            let want: Vec<u8> = if is_write {
+                // write datagrams come back with the data that was sent
+                match case.op {
+                    PrimOp::SendReceive if case.len == 1 => vec![payload[0]],
+                    PrimOp::SendReceive => vec![payload[0], *payload.get(1).unwrap_or(&0)],
+                    _ => payload.clone(),
+                }
+            } else {
+                let dlen = match (case.op, case.len) {
+                    (PrimOp::Receive, 1) => 1,
+                    (PrimOp::Receive, 2 | 3) => 2,
+                    (PrimOp::Receive, 4..=7) => 4,
+                    (PrimOp::Receive, _) => 8,
+                    _ => len,
+                };
+
+                let mut acc = vec![0u8; dlen];
+
+                for i in &servicing {
+                    let m = &net.devices[*i].mem[usize::from(C11_REG)..usize::from(C11_REG) + dlen];
+
+                    if matches!(case.addressing, Addressing::Broadcast) {
+                        for (a, b) in acc.iter_mut().zip(m.iter()) {
+                            *a |= *b;
+                        }
+                    } else {
+                        acc.copy_from_slice(m);
+                    }
+                }
+
+                acc
+            };
+
+            ensure!(*data == want, format!("C11|wrong-data|{entry}"), "returned {} but the network returned {}", crate::util::hex(data), crate::util::hex(&want));
+        }
+    }
+
+    // Writes reached exactly the servicing devices
+    if is_write {
+        let net = net.borrow();
+        let wlen = match case.op {
+            PrimOp::SendReceive if case.len == 1 => 1,
+            PrimOp::SendReceive => 2,
+            _ => len,
+        };
+
+        for i in 0..n {
+            let m = &net.devices[i].mem[usize::from(C11_REG)..usize::from(C11_REG) + wlen.min(len.max(wlen))];
+            let written = servicing.contains(&i);
+
+            if written {
+                let mut w = payload.clone();
+
+                w.resize(wlen.max(1), 0);
+
+                ensure!(m[..wlen] == w[..wlen], "C11|harness-write-model", "device {i} memory after write");
+            } else if wlen <= len {
+                ensure!(m[..wlen] == before[i][..wlen], "C11|write-reached-unaddressed-device", "device {i} was not addressed but its memory changed");
+            }
+        }
+    }
+
+    Ok(())
+}
+
+// ---------------------------------------------------------------------------------------------
+// C11 — composite operations against a device that is absent / drops out
+// ---------------------------------------------------------------------------------------------
+
+#[derive(Serialize, Deserialize, Clone, Debug, PartialEq, Eq, Hash)]
+pub enum CompOp {
+    EepromRead { word: u16, len: u8 },
+    SdoRead { sub: u8 },
+    SdoWrite { value: u32 },
+    RegisterRead,
+    Status,
+    IntoSafeOp,
+    IntoInit,
+}
+
+#[derive(Serialize, Deserialize, Clone, Debug, PartialEq, Eq, Hash)]
+pub struct C11Comp {
+    pub devices: Vec<DevKnobs>,
+    pub target: u8,
+    pub op: CompOp,
+    /// The target stops answering this many datagrams into the operation (0 = absent throughout)
+    pub drop_after: u16,
+}
+
+pub fn c11_comp() -> impl Strategy<Value = C11Comp> {
+    (
+        prop::collection::vec(simgen::knobs(simgen::KnobRanges { max_sms: 1, max_pdos: 1, max_entries: 2, allow_dc: false, strict_pct: 0 }), 1..=3),
+        any::<u8>(),
+        prop_oneof![
+            (0u16..0x40, 1u8..24).prop_map(|(word, len)| CompOp::EepromRead { word, len }),
+            (0u8..2).prop_map(|sub| CompOp::SdoRead { sub }),
+            any::<u32>().prop_map(|value| CompOp::SdoWrite { value }),
+            Just(CompOp::RegisterRead),
+            Just(CompOp::Status),
+            Just(CompOp::IntoSafeOp),
+            Just(CompOp::IntoInit),
+        ],
+        prop_oneof![2 => Just(0u16), 3 => 1u16..12, 1 => 12u16..60],
+    )
+        .prop_map(|(mut devices, target, op, drop_after)| {
+            let t = usize::from(target) % devices.len();
+
+            // The target speaks CoE so that every operation is applicable
+            devices[t].mailbox = true;
+            devices[t].coe = true;
+            devices[t].mbx_size = devices[t].mbx_size.max(32);
+
+            for d in &mut devices {
+                if d.name.len() > 40 {
+                    d.name.truncate(40);
+                }
+            }
+
+            C11Comp { devices, target: t as u8, op, drop_after }
+        })
+}
+
+const C11_OBJ: u16 = 0x2100;
+
+pub fn run_c11_comp(case: &C11Comp, info: &mut CaseInfo) -> Result<(), Fail> {
+    let t = usize::from(case.target);
+    let mut spec: NetSpec = simgen::build_net(&case.devices, &[], &[]);
+
+    spec.devices[t].od.push(simnet::Object {
+        index: C11_OBJ,
+        subs: vec![vec![2], vec![0x11, 0x22, 0x33, 0x44], vec![0x55, 0x66, 0x77, 0x88]],
+        behaviour: simnet::ObjBehaviour::Normal,
+    });
+    spec.devices[t].od.sort_by_key(|o| o.index);
+
+    let net: NetHandle = Rc::new(RefCell::new(Network::new(&spec)));
+    let cfg = SimConfig::default();
+    let op = case.op.clone();
+    let drop_after = u64::from(case.drop_after);
+    let net2 = net.clone();
+
+    #[derive(Debug)]
+    enum Out {
+        Bytes(Vec<u8>),
+        Unit,
+        State(u8),
+    }
+
+    let res: Result<Result<Out, Error>, Fail> = simexec::run(&net, &cfg, |md| {
+        Box::pin(async move {
+            let group = md.init_single_group::<8, 256>(|| 0).await.map_err(|e| Fail::new("C11|harness-init", format!("init of the healthy network failed: {e:?}")))?;
+
+            // From now on the target drops out
+            {
+                let mut n = net2.borrow_mut();
+                let at = n.stats.datagrams + 1 + drop_after;
+
+                n.drop_at = Some((t, at));
+            }
+
+            let r: Result<Out, Error> = match op {
+                CompOp::EepromRead { word, len } => {
+                    let sd = group.subdevice(md, t).unwrap();
+                    let mut buf = vec![0u8; usize::from(len)];
+
+                    sd.eeprom_read_raw(md, word, &mut buf).await.map(|n| Out::Bytes(buf[..n].to_vec()))
+                }
+                CompOp::SdoRead { sub } => {
+                    let sd = group.subdevice(md, t).unwrap();
+
+                    sd.sdo_read::<u32>(C11_OBJ, sub + 1).await.map(|v| Out::Bytes(v.to_le_bytes().to_vec()))
+                }
+                CompOp::SdoWrite { value } => {
+                    let sd = group.subdevice(md, t).unwrap();
+
+                    sd.sdo_write(C11_OBJ, 1u8, value).await.map(|_| Out::Unit)
+                }
+                CompOp::RegisterRead => {
+                    let sd = group.subdevice(md, t).unwrap();
+
+                    sd.register_read::<u16>(0x0010u16).await.map(|v| Out::Bytes(v.to_le_bytes().to_vec()))
+                }
+                CompOp::Status => {
+                    let sd = group.subdevice(md, t).unwrap();
+
+                    sd.status().await.map(|(s, _c)| Out::State(match s {
+                        ethercrab::SubDeviceState::Init => 1,
+                        ethercrab::SubDeviceState::PreOp => 2,
+                        ethercrab::SubDeviceState::SafeOp => 4,
+                        ethercrab::SubDeviceState::Op => 8,
+                        _ => 0,
+                    }))
+                }
+                CompOp::IntoSafeOp => group.into_safe_op(md).await.map(|_| Out::State(4)),
+                CompOp::IntoInit => group.into_init(md).await.map(|_| Out::State(1)),
+            };
+
+            Ok(r)
+        })
+    })
+    .map_err(|e| sim_fail("C11", e))?;
+
+    let res = res?;
+    let net = net.borrow();
+    let dev = &net.devices[t];
+    let multi = !matches!(case.op, CompOp::RegisterRead);
+
+    info.nontrivial = case.drop_after == 0 || (multi && dev.absent);
+    info.label(format!("{:?}", std::mem::discriminant(&case.op)).replace("Discriminant", "op"));
+
+    if case.drop_after == 0 {
+        info.label("absent-throughout");
+    } else if dev.absent {
+        info.label("dropout-inside-operation");
+    } else {
+        info.label("operation-finished-before-dropout");
+    }
+
+    let opname = match case.op {
+        CompOp::EepromRead { .. } => "eeprom-read",
+        CompOp::SdoRead { .. } => "sdo-read",
+        CompOp::SdoWrite { .. } => "sdo-write",
+        CompOp::RegisterRead => "register-read",
+        CompOp::Status => "status",
+        CompOp::IntoSafeOp => "into-safe-op",
+        CompOp::IntoInit => "into-init",
+    };
+
+    match res {
+        Err(e) => {
+            if case.drop_after == 0 {
+                ensure!(
+                    matches!(e, Error::WorkingCounter { expected: 1, received: 0 }),
+                    format!("C11|absent-device-wrong-error|{opname}"),
+                    "the device was absent throughout; expected WorkingCounter {{ expected: 1, received: 0 }}, got {e:?}"
+                );
+            } else if !dev.absent {
+                fail!(format!("C11|healthy-operation-failed|{opname}"), "the device never dropped out but the operation failed: {e:?}");
+            } else {
+                // The device dropped out inside the operation and stayed out: the first datagram
+                // after that came back with one service too few, and that is what must be reported
+                // (a poll loop that never sees the awaited state may also end in its timeout: that
+                // says "never got there", which mistakes nothing). Any other error was derived by
+                // interpreting bytes that no device supplied.
+                ensure!(
+                    matches!(e, Error::WorkingCounter { expected, received } if received < expected) || matches!(e, Error::Timeout(_)),
+                    format!("C11|dropout-wrong-error|{opname}"),
+                    "the device dropped out after {} datagram(s) of the operation; expected a working-counter error with received < expected (or the poll timeout), got {e:?}",
+                    case.drop_after
+                );
+            }
+
+            Ok(())
+        }
+        Ok(out) => {
+            // Ok is acceptable only if it is the truth and (for writes / transitions) completed
+            match (&case.op, out) {
+                (CompOp::EepromRead { word, len }, Out::Bytes(b)) => {
+                    let a = usize::from(*word) * 2;
+                    let want = &dev.eeprom[a..a + usize::from(*len)];
+
+                    ensure!(b == want, format!("C11|data-from-silent-device|{opname}"), "returned {} but the EEPROM holds {} (device dropped out: {})", crate::util::hex(&b), crate::util::hex(want), dev.absent);
+                }
+                (CompOp::SdoRead { sub }, Out::Bytes(b)) => {
+                    let want: &[u8] = if *sub == 0 { &[0x11, 0x22, 0x33, 0x44] } else { &[0x55, 0x66, 0x77, 0x88] };
+
+                    ensure!(b == want, format!("C11|data-from-silent-device|{opname}"), "returned {} but the object holds {}", crate::util::hex(&b), crate::util::hex(want));
+                }
+                (CompOp::SdoWrite { value }, _) => {
+                    ensure!(
+                        dev.stats.downloads.iter().any(|(i, s, d)| *i == C11_OBJ && *s == 1 && d == &value.to_le_bytes().to_vec()),
+                        format!("C11|completed-for-silent-device|{opname}"),
+                        "sdo_write returned Ok but the device never received the download (dropped out: {})",
+                        dev.absent
+                    );
+                }
+                (CompOp::RegisterRead, Out::Bytes(b)) => {
+                    ensure!(b == (0x1000 + t as u16).to_le_bytes(), format!("C11|data-from-silent-device|{opname}"), "register read returned {}", crate::util::hex(&b));
+                    ensure!(case.drop_after > 0, format!("C11|data-from-silent-device|{opname}"), "register read of an absent device returned Ok");
+                }
+                (CompOp::Status, Out::State(s)) => {
+                    ensure!(s == dev.al_state && case.drop_after > 0, format!("C11|data-from-silent-device|{opname}"), "status() returned state {s}; device is in {} (absent from datagram {})", dev.al_state, case.drop_after);
+                }
+                (CompOp::IntoSafeOp | CompOp::IntoInit, Out::State(s)) => {
+                    for (i, d) in net.devices.iter().enumerate() {
+                        ensure!(
+                            d.al_state == s,
+                            format!("C11|completed-for-silent-device|{opname}"),
+                            "group transition returned Ok but device {i} is in state {} (absent: {})",
+                            d.al_state,
+                            d.absent
+                        );
+                    }
+                }
+                (o, out) => fail!("harness|c11", "unexpected combination {o:?} {out:?}"),
+            }
+
+            Ok(())
+        }
+    }
+}
